@@ -297,6 +297,39 @@ package go_clipper2
 //@   ensures [open-ends] (!isClosedPath && len(path) >= 4 && epsilon*epsilon < 1.7976931348623157e308) ==> (len(result) >= 2 && result[0] == path[0] && result[len(result)-1] == path[len(path)-1])
 //@   expect  [open-ends-any-eps] (!isClosedPath && len(path) >= 4) ==> (len(result) >= 2 && result[0] == path[0] && result[len(result)-1] == path[len(path)-1])
 
+// after a vertex is removed its two surviving neighbours are re-measured, each against *its* two live neighbours (C16):
+// livePrior / liveNext say "the nearest index before / after c (cyclically) that is not flagged as removed"
+//@ spec livePrior(p int, c int, high int, flags []bool) bool = 0 <= p && p <= high && !flags[p] && (p < c ==> forall(k, p+1, c, flags[k])) && (p >= c ==> (forall(k, 0, c, flags[k]) && forall(k, p+1, high+1, flags[k])))
+//@ spec liveNext(n int, c int, high int, flags []bool) bool = 0 <= n && n <= high && !flags[n] && (n > c ==> forall(k, c+1, n, flags[k])) && (n <= c ==> (forall(k, c+1, high+1, flags[k]) && forall(k, 0, n, flags[k])))
+//@ func SimplifyPath64 variant neighbours
+//@   props C16
+//@   nosafety
+//@   requires domPath(path, 29)
+//@   loop 0 invariant [shape] 1 <= i && i <= high && len(dsq) == l && len(flags) == l && l == len(path) && high == l-1 && l >= 4 && curr == 0
+//@   loop 0 invariant [unflagged] forall(k, 0, l, !flags[k])
+//@   loop 1 invariant [shape] len(dsq) == l && len(flags) == l && l == len(path) && high == l-1 && l >= 4 && 0 <= curr && curr <= high
+//@   loop 1 invariant [curr-live] !flags[curr]
+//@   loop 1.0 invariant [shape] len(dsq) == l && len(flags) == l && l == len(path) && high == l-1 && l >= 4 && 0 <= curr && curr <= high && 0 <= start && start <= high
+//@   loop 1.0 invariant [curr-live] !flags[curr]
+//@   loop 1 step [an-interior-vertex-before-the-removed-one-is-always-re-measured] (isClosedPath || (prev != 0 && prev != high)) ==> dsq[prev] == PerpendicDistFromLineSqr64(path[prev], path[prior2], path[curr])
+//@   loop 1 step [an-interior-vertex-after-the-removed-one-is-always-re-measured] (isClosedPath || (curr != 0 && curr != high)) ==> dsq[curr] == PerpendicDistFromLineSqr64(path[curr], path[prev], path[next])
+//@   loop 1 step [the-ends-of-an-open-path-keep-their-measure] !isClosedPath ==> (dsq[0] == old(dsq[0]) && dsq[high] == old(dsq[high]))
+//@   assert after dsq[curr]#0 [the-vertex-after-the-removed-one-is-re-measured-against-its-two-live-neighbours] livePrior(prev, curr, high, flags) && liveNext(next, curr, high, flags)
+//@   assert after dsq[prev]#0 [the-vertex-before-the-removed-one-is-re-measured-against-its-two-live-neighbours] livePrior(prior2, prev, high, flags) && liveNext(curr, prev, high, flags)
+
+//@ func SimplifyPathD variant neighbours
+//@   props C16
+//@   nosafety
+//@   loop 0 invariant [shape] 1 <= i && i <= high && len(dsq) == length && len(flags) == length && length == len(path) && high == length-1 && length >= 4 && curr == 0
+//@   loop 0 invariant [unflagged] forall(k, 0, length, !flags[k])
+//@   loop 1 invariant [shape] len(dsq) == length && len(flags) == length && length == len(path) && high == length-1 && length >= 4 && 0 <= curr && curr <= high
+//@   loop 1 invariant [curr-live] !flags[curr]
+//@   loop 1.0 invariant [shape] len(dsq) == length && len(flags) == length && length == len(path) && high == length-1 && length >= 4 && 0 <= curr && curr <= high && 0 <= start && start <= high
+//@   loop 1.0 invariant [curr-live] !flags[curr]
+//@   loop 1 step [the-ends-of-an-open-path-keep-their-measure] !isClosedPath ==> (dsq[0] == old(dsq[0]) && dsq[high] == old(dsq[high]))
+//@   assert after dsq[curr]#0 [the-vertex-after-the-removed-one-is-re-measured-against-its-two-live-neighbours] livePrior(prev, curr, high, flags) && liveNext(next, curr, high, flags)
+//@   assert after dsq[prev]#0 [the-vertex-before-the-removed-one-is-re-measured-against-its-two-live-neighbours] livePrior(prior2, prev, high, flags) && liveNext(curr, prev, high, flags)
+
 //@ spec memberOfD(p PointD, path PathD) bool = exists(j, 0, len(path), path[j] == p)
 
 //@ func SimplifyPathD
